@@ -64,6 +64,31 @@ pub fn prog_tree(p: &Prog) -> Tree {
     t[p.roots[0]].clone()
 }
 
+/// The same tree with every zero / NaN constant replaced by its twin of the
+/// other sign (a different bit pattern that the library's constant ordering
+/// treats as the same value); None if the program has no such constant
+pub fn prog_tree_twin(p: &Prog) -> Option<Tree> {
+    let mut t: Vec<Tree> = vec![];
+    let mut any = false;
+    for op in &p.nodes {
+        let n = match *op {
+            POp::Var(i) => Tree::from(var_by_index(i)),
+            POp::Const(c) => {
+                if c == 0.0 || c.is_nan() {
+                    any = true;
+                    Tree::constant(f32::from_bits(c.to_bits() ^ 0x8000_0000))
+                } else {
+                    Tree::constant(c)
+                }
+            }
+            POp::Un(u, a) => tree_un(u, &t[a]),
+            POp::Bin(b, a, c) => tree_bin(b, &t[a], &t[c]),
+        };
+        t.push(n);
+    }
+    any.then(|| t[p.roots[0]].clone())
+}
+
 /// Unsimplified evaluation, operation by operation.  Returns the root value
 /// and whether the comparison is meaningful: every intermediate stayed finite,
 /// and no operation whose result depends on the SIGN of a zero operand
@@ -262,12 +287,27 @@ fn check_prog(cx: &mut Cx, sub: &mut u64, p: &Prog, pts: &[Vec<f32>]) {
         let mut ctx = Context::new();
         let n = ctx.import(&t1);
         let n_again = ctx.import(&t2);
-        (eq, h1, h2, n == n_again, Flat::from_ctx(&ctx, &[n]))
+        // a tree that the library itself calls equal must also hash equally
+        // (constants +0 / -0, and NaNs of either sign, compare equal)
+        let twin = prog_tree_twin(p).map(|t3| (t1 == t3, hash_tree(&t3, &bh), ctx.import(&t3) == n));
+        (eq, h1, h2, n == n_again, Flat::from_ctx(&ctx, &[n]), twin)
     });
     match r {
         Err(e) => cx.violation(format!("tree route panic {}", panic_site(&e)), desc(), e),
-        Ok((eq, h1, h2, same_node, tflat)) => {
+        Ok((eq, h1, h2, same_node, tflat, twin)) => {
             cx.add("evals", 2);
+            if let Some((teq, h3, tsame)) = twin {
+                cx.add("twin_trees_with_other_zero_or_nan_bits", 1);
+                if teq {
+                    cx.add("twin_trees_that_compare_equal", 1);
+                    if h3 != h1 {
+                        cx.violation("trees that compare == hash differently (constants equal but of different bit pattern)", desc(), format!("{h1:x} vs {h3:x}"));
+                    }
+                    if !tsame {
+                        cx.violation("trees that compare == import to different nodes", desc(), "");
+                    }
+                }
+            }
             if !eq {
                 cx.violation("separately built equal trees are not ==", desc(), "t1 != t2");
             }
@@ -441,7 +481,7 @@ impl Check for C12 {
     }
     fn meta(&self, tier: Tier) -> Meta {
         Meta {
-            rule: "case = expression tree; all trees of depth <= 2 (thorough: a family of depth-3 trees) over ALL 30 opcodes with leaves {x, y} and constants {0,-0,1,-1,2,NaN,3.7} (thorough: + 0.5, +-inf, 1e-40), including shared sub-trees (both operands the same node); each is built (a) through the public Context constructors and (b) as a Tree and imported; the graph the context holds is evaluated with ref32 at every point of an 11x11 grid (incl. +-0, 1e20, inf, NaN) and compared under == with the operation-by-operation evaluation of the un-rewritten expression whenever that stays finite throughout; building twice gives the same node, import(export(n)) = n, separately built equal trees are == and hash equally; chains, unary chains and balanced trees of 1e5 (thorough 1e6) nodes are built, compared, hashed, imported, exported and dropped on a 256 KiB stack; non-trivial = at least one point was compared".into(),
+            rule: "case = expression tree; all trees of depth <= 2 (thorough: a family of depth-3 trees) over ALL 30 opcodes with leaves {x, y} and constants {0,-0,1,-1,2,NaN,3.7} (thorough: + 0.5, +-inf, 1e-40), including shared sub-trees (both operands the same node); each is built (a) through the public Context constructors and (b) as a Tree and imported; the graph the context holds is evaluated with ref32 at every point of an 11x11 grid (incl. +-0, 1e20, inf, NaN) and compared under == with the operation-by-operation evaluation of the un-rewritten expression whenever that stays finite throughout; building twice gives the same node, import(export(n)) = n, separately built equal trees are == and hash equally, and so does the twin tree whose zero / NaN constants carry the other sign bit whenever the library calls it ==; chains, unary chains and balanced trees of 1e5 (thorough 1e6) nodes are built, compared, hashed, imported, exported and dropped on a 256 KiB stack; non-trivial = at least one point was compared".into(),
             bounds: match tier {
                 Tier::Quick => "depth <= 2, 9 leaves".into(),
                 Tier::Thorough => "depth <= 2 with 13 leaves; depth 3 = outer(op(inner(l,l), l), l) family".into(),
